@@ -847,7 +847,8 @@ def _command_line_arguments(args):
 
     # return the options formatted with short names
     return ' '.join(
-        '{}{}'.format(k, ' ' + str(v) if k not in novalue_options else '')
+        '{}{}'.format(
+            k, ' ' + shlex.quote(str(v)) if k not in novalue_options else '')
         for k, v in ag_args.items())
 
 
